@@ -25,8 +25,8 @@ type C09Case struct {
 	Positions []int `json:"positions"`
 	All       bool  `json:"all"`
 	// Second fault (pairs): kind and position draw applied to the first reconcile of the recovery; 0 = none
-	SecondKind int `json:"second_kind,omitempty"`
-	SecondPos  int `json:"second_pos,omitempty"`
+	SecondKind int    `json:"second_kind,omitempty"`
+	SecondPos  int    `json:"second_pos,omitempty"`
 	Perm       uint64 `json:"perm,omitempty"`
 }
 
